@@ -100,7 +100,20 @@ impl AssetExpr {
 #[derive(Serialize, Deserialize, Debug, Clone, PartialEq, Eq)]
 pub struct AdHocDirective {
     pub name: String,
+    #[serde(serialize_with = "serialize_sorted_by_key")]
     pub data: HashMap<String, Expression>,
+}
+
+// Hash maps iterate in a different order on every run, the encoded IR must not.
+fn serialize_sorted_by_key<S>(
+    data: &HashMap<String, Expression>,
+    serializer: S,
+) -> Result<S::Ok, S::Error>
+where
+    S: serde::Serializer,
+{
+    let sorted: std::collections::BTreeMap<_, _> = data.iter().collect();
+    sorted.serialize(serializer)
 }
 
 #[derive(Serialize, Deserialize, Debug, Clone, PartialEq, Eq)]
